@@ -146,6 +146,8 @@ def build_dumper(dataflows, opts, out_dir):
         kw['temporal_format_property'] = opts['tfp']
     if opts.get('counters') is not None:
         kw['counters'] = copy.deepcopy(opts['counters'])
+    if opts.get('validator_options') is not None:
+        kw['validator_options'] = dict(opts['validator_options'])
     if opts['dumper'] == 'path':
         loc = os.path.join(out_dir, 'pkg')
         return dataflows.dump_to_path(loc, **kw), loc
